@@ -9,6 +9,7 @@ Run-time contract on the REAL logic.matcher.first_order_match / first_order_matc
 Inputs: first-order patterns, Miller patterns under binders, repeated schematic variables, type-polymorphic
 patterns, non-pattern applications, pre-seeded instantiations; targets = instances and unrelated terms."""
 import copy
+import os
 import random
 import sys
 import time
@@ -53,8 +54,8 @@ def snapshot(inst):
 
 def run(tier='quick', seed=0):
     t0 = time.time()
-    if '/repo' not in sys.path:
-        sys.path.insert(0, '/repo')
+    if os.environ.get('HOLPY_REPO', '/repo') not in sys.path:
+        sys.path.insert(0, os.environ.get('HOLPY_REPO', '/repo'))
     from logic import basic
     basic.load_theory('logic_base')
     from kernel.type import STVar, TVar, TFun, BoolType, TConst
@@ -126,13 +127,52 @@ def run(tier='quick', seed=0):
                 inst[v.name] = gen_ground(1)
         return inst
 
+    zz = Var('zz_', N)
+
+    def gen_body(d):
+        """body of an abstraction: the bound variable (placeholder zz_), free variables x, y, constants"""
+        k = rng.random()
+        if d <= 0 or k < 0.35:
+            return rng.choice([zz, zz, x, y, c0])
+        if k < 0.65:
+            return f(gen_body(d - 1))
+        return g(gen_body(d - 1), gen_body(d - 1))
+
+    def gen_binder_case():
+        """patterns with a binder against abstractions whose bodies have free variables named like binders and
+        repeated / nested occurrences of the bound variable"""
+        pn, tn = rng.choice(['x', 'y', 'u']), rng.choice(['x', 'y', 'u'])
+        k = rng.random()
+        if k < 0.5:
+            pat = Abs(pn, N, sF(Bound(0)))
+            target = Abs(tn, N, gen_body(rng.choice([1, 2, 3])).abstract_over(zz))
+        elif k < 0.7:
+            pat = Abs(pn, N, g(sF(Bound(0)), sa))
+            target = Abs(tn, N, g(gen_body(2), gen_ground(1)).abstract_over(zz))
+        elif k < 0.85:
+            allT = Const('all', TFun(TFun(N, BoolType), BoolType))
+            sP = SVar('P', TFun(N, BoolType))
+            pat = allT(Abs(pn, N, sP(Bound(0))))
+            target = allT(Abs(tn, N, P(gen_body(2)).abstract_over(zz)))
+        else:
+            pat = Abs(pn, N, Abs('v', N, sG(Bound(1), Bound(0))))
+            zz2 = Var('zz2_', N)
+            b = g(gen_body(1), rng.choice([zz2, f(zz2), x])).abstract_over(zz2)
+            target = Abs(tn, N, Abs(rng.choice(['v', 'x']), N, b).abstract_over(zz))
+        return pat, target
+
     n = 1500 if tier == 'quick' else 25000
     for it in range(n):
-        fo = rng.random() < 0.55
+        fo = rng.random() < 0.45
+        binder_case = (not fo) and rng.random() < 0.45
         pat = gen_fo_pat(rng.choice([1, 2, 3])) if fo else gen_ho_pat()
         target_is_instance = rng.random() < 0.6
+        if binder_case:
+            target_is_instance = False
         try:
-            if target_is_instance:
+            if binder_case:
+                pat, target = gen_binder_case()
+            elif target_is_instance:
                 sigma = gen_inst(pat)
                 target = apply_inst(pat, sigma)
             else:
@@ -200,7 +240,8 @@ def run(tier='quick', seed=0):
             seen.add(k)
             uniq.append(v)
     return {'name': 'c09_matcher', 'rule': 'random pattern/target pairs: first-order patterns (depth <= 3, repeated '
-            'svars), 5 higher-order shapes (Miller under binders, non-pattern application, polymorphic), targets = '
+            'svars), 5 higher-order shapes (Miller under binders, non-pattern application, polymorphic) and binder '
+            'patterns against abstractions with clashing free names / nested bound occurrences, targets = '
             'instances by generated instantiations (60%) or unrelated, 30% pre-seeded; non-trivial = distinct '
             '(pattern, target, seed)', 'evaluations': evals, 'distinct_nontrivial': len(distinct), 'stats': stats,
             'samples': samples, 'violations': uniq[:12], 'n_violations': len(uniq), 'all_violations': len(violations),
